@@ -20,11 +20,11 @@ def find(labels, q):
     return None
 
 
-def build(ctx, shape, lkinds, dkind='f', prime=False):
+def build(ctx, shape, lkinds, dkind='f', prime=False, order=None):
     """prime: put the axes' lazily cached state (Axis._monotonic) into its other legitimate value by
     calling the public query is_monotonic() first - results must not depend on it"""
     dims = DIMS[:len(shape)]
-    labels = [ctx.labels(k, n, 'l%s_' % d) for d, n, k in zip(dims, shape, lkinds)]
+    labels = [ctx.labels(k, n, 'l%s_' % d, order=(order if n >= 2 else None)) for d, n, k in zip(dims, shape, lkinds)]
     ncell = 1
     for n in shape:
         ncell *= n
@@ -188,6 +188,46 @@ def tol_lookup(ctx, n, lkind, qkind, form, via, m=0, prime=False):
     return ctx.done(ctx.OR(*alts), ctx.observe(r[1]))
 
 
+def tol_nd(ctx, via, order):
+    """tolerance lookup on a numeric dimension combined with an exact lookup on a str dimension (either order)"""
+    lk = ['U', 'f'] if order == 'str-first' else ['f', 'U']
+    a, ref, dims, labels = build(ctx, [2, 3], lk) if order == 'str-first' else build(ctx, [3, 2], lk)
+    si = 0 if order == 'str-first' else 1
+    ni = 1 - si
+    sc = ctx.choice('sc', 2)
+    q = ctx.real('q')
+    tol = ctx.real('tol')
+    ctx.assume(tol > 0)
+    idx = [None, None]
+    idx[si] = labels[si][sc] if via != 'list' else [labels[si][sc]]
+    idx[ni] = q
+    if via in ('take', 'list'):
+        r = ctx.call(lambda: a.take(tuple(idx), tol=tol))
+    elif via == 'dict':
+        r = ctx.call(lambda: a.take({dims[0]: idx[0], dims[1]: idx[1]}, tol=tol))
+    else:
+        tol = None
+        r = ctx.call(lambda: a.nloc[tuple(idx)])
+    ls = labels[ni]
+    ds = [ctx.symx.ite(l - q >= 0, l - q, q - l) if ctx.sym else abs(l - q) for l in ls]
+    mi = 0
+    for i in range(1, len(ls)):
+        if ds[i] < ds[mi]:
+            mi = i
+    if tol is not None and ds[mi] > tol:
+        return ctx.done(r == ('exc', 'IndexError'), r[1] if r[0] != 'ok' else ctx.observe(r[1]))
+    if r[0] != 'ok':
+        return ctx.done(False, r[1])
+    cands = [i for i in range(len(ls)) if i == mi or ds[i] == ds[mi]]
+    alts = []
+    for c in cands:
+        sel = [None, None]
+        sel[si] = sc if via != 'list' else [sc]
+        sel[ni] = c
+        alts.append(same(ctx, r[1], ref.select(sel)))
+    return ctx.done(ctx.OR(*alts), ctx.observe(r[1]))
+
+
 def _pos_forms(n):
     forms = [('int', i) for i in range(-n - 1, n + 1)]
     forms += [('list', []), ('list', [0] if n else []), ('list', [n - 1, 0, n - 1] if n else []), ('list', [-1, 0] if n else []), ('list', [n] if True else [])]
@@ -342,6 +382,9 @@ def templates():
                         n=n, lkind=lk, qkind=qk, form=form, via=via)
     for via in ('takepos', 'takedict', 'nloc'):
         add('tol-2d-%s' % via, 'tol_lookup', cost=2, n=3, lkind='f', qkind='f', form='scalar', via=via, m=2)
+    for via in ('take', 'dict', 'nloc', 'list'):
+        for order in ('str-first', 'num-first'):
+            add('tol-nd-%s-%s' % (via, order), 'tol_nd', cost=1.5, via=via, order=order)
     # positional access
     for via in ('ix', 'iloc', 'isel', 'take', 'getitem-under-position', 'iloc-under-position'):
         for shape, lks in (([3], ['i']), ([2, 3], ['U', 'i']), ([0], ['i'])):
